@@ -782,7 +782,15 @@ fn fault_splits(col: &mut Collector, fc: &FaultCx, e: &Entry, what: &str, bytes:
                 DecRes::Ok => col.outcome("decoded"),
                 _ => {
                     col.outcome("failed-decode");
-                    if r.live_after != r.live_before {
+                    // a real leak repeats: the same input twice more, all three must retain memory
+                    let repeats = r.live_after > r.live_before && (0..2).all(|_| {
+                        let again = exec(e, bytes, buf, mode, false);
+                        again.live_after > again.live_before
+                    });
+                    if r.live_after != r.live_before && !repeats {
+                        col.outcome("live-bytes-changed-once-not-repeatable");
+                    }
+                    if repeats {
                         col.outcome("leak");
                         col.fail(
                             format!("C19|{}|pb|{}|leak:{}", e.cfg, bk, what),
